@@ -162,6 +162,21 @@ func c16Inputs(thorough bool) []c16case {
 		add(fmt.Sprintf("linux-proto-match-rev:%d", i), "Linux", core.Files{Main: raw("-p " + pr[0] + " -m " + pr[0] + " -j ACCEPT")},
 			core.Files{Main: raw("-j ACCEPT -p " + pr[1])})
 	}
+	// Linux: raw file adds several chains and tables (one message each)
+	add("linux-raw-new-chains", "Linux", core.Files{Main: "*filter\n:INPUT DROP\n:FORWARD DROP\n:OUTPUT ACCEPT\nCOMMIT\n"},
+		core.Files{Main: "*filter\n:INPUT DROP\n:FORWARD DROP\n:OUTPUT ACCEPT\n-A FORWARD -j ACCEPT -s 10.1.1.1\nCOMMIT\n",
+			Raw: "*filter\n:c1 -\n:c2 -\n:c3 -\n:c4 -\n-A c1 -j ACCEPT\n-A c2 -j ACCEPT\n-A c3 -j ACCEPT\n-A c4 -j ACCEPT\nCOMMIT\n" +
+				"*mangle\n:PREROUTING ACCEPT\n-A PREROUTING -j MARK --set-mark 5\nCOMMIT\n*nat\n:PREROUTING ACCEPT\nCOMMIT\n"})
+	// Linux: raw file redefines two user chains (two independent errors)
+	add("linux-raw-two-errors", "Linux", core.Files{Main: "*filter\n:INPUT DROP\nCOMMIT\n"},
+		core.Files{Main: "*filter\n:INPUT DROP\n:c1 -\n:c2 -\n-A c1 -j ACCEPT\n-A c2 -j ACCEPT\nCOMMIT\n",
+			Raw: "*filter\n:c1 -\n:c2 -\n-A c1 -j DROP\n-A c2 -j DROP\nCOMMIT\n"})
+	// ASA: raw file with several independent errors
+	add("asa-raw-two-unsupported", "ASA", core.Files{Main: asaIntf}, core.Files{Main: "access-list inside_in extended permit ip host 10.1.1.1 any4\naccess-group inside_in in interface inside\n",
+		Raw: "tunnel-group VPN-tunnel type remote-access\ntunnel-group-map default-group VPN-tunnel\nwebvpn\n anyconnect-custom-attr x\n"})
+	add("asa-raw-two-name-clashes", "ASA", core.Files{Main: asaIntf}, core.Files{Main: groupText("g1", 3) + groupText("g2", 5) +
+		"access-list inside_in extended permit ip object-group g1 object-group g2\naccess-group inside_in in interface inside\n",
+		Raw: groupText("g1", 4) + groupText("g2", 6) + "access-list inside_in extended permit ip object-group g1 any4\naccess-list outside_in extended permit ip object-group g2 any4\naccess-group outside_in in interface outside\n"})
 	add("linux-struct", "Linux", core.Files{Main: "*filter\n:INPUT DROP\n:a -\n:b -\n:c -\nCOMMIT\n*mangle\n:PREROUTING ACCEPT\nCOMMIT\n*nat\n:PREROUTING ACCEPT\nCOMMIT\n"},
 		core.Files{Main: "*filter\n:INPUT DROP\n:d -\n:e -\nCOMMIT\n*raw\n:PREROUTING ACCEPT\nCOMMIT\n"})
 	// PAN-OS
